@@ -125,8 +125,7 @@ func (f *Frame) callInvoke(i *ssa.Call, com *ssa.CallCommon, recv Val, args []Va
 	if n, ok := com.Value.Type().(*types.Named); ok {
 		key := namedKey(n) + "." + mname
 		if fc2 := c.eng.cs.Funcs[key]; fc2 != nil {
-			all := append([]Val{recv}, args...)
-			return f.callContract(i, nil, fc2, key, all, recv, st, *r)
+			return f.callContract(i, nil, fc2, key, args, recv, st, *r)
 		}
 	}
 	var keys []string
@@ -272,8 +271,16 @@ func (f *Frame) callContract(i *ssa.Call, g *ssa.Function, fc2 *FuncContract, ke
 		modKeys = c.eng.modsetList(g)
 	} else {
 		sig := i.Common().Signature()
+		names := c.eng.contractParamNames(key, nil)
 		for k, a := range args {
-			ev.vars[fmt.Sprintf("arg%d", k)] = SVal{T: a.T, S: a.S, GT: a.GT}
+			gt := a.GT
+			if k < sig.Params().Len() {
+				gt = sig.Params().At(k).Type()
+			}
+			ev.vars[fmt.Sprintf("arg%d", k)] = SVal{T: a.T, S: a.S, GT: gt}
+			if k < len(names) {
+				ev.vars[names[k]] = SVal{T: a.T, S: a.S, GT: gt}
+			}
 		}
 		if self.T != "" {
 			ev.vars["self"] = SVal{T: self.T, S: self.S, GT: self.GT}
@@ -281,6 +288,7 @@ func (f *Frame) callContract(i *ssa.Call, g *ssa.Function, fc2 *FuncContract, ke
 		resT = sig.Results()
 		modKeys = f.calleeModKeys(i.Common())
 	}
+	f.checkFnArgs(i, g, fc2, key, args, site, r)
 	// implicit: receiver non-nil
 	if g != nil && g.Signature.Recv() != nil && len(args) > 0 && !fc2.Nullable[g.Params[0].Name()] {
 		f.oblige("pre[nonnil]@"+site, nil, r, "(not (= "+args[0].T+" 0))")
@@ -620,4 +628,57 @@ func splitTop(s string) []string {
 		out = append(out, s[start:])
 	}
 	return out
+}
+
+// checkFnArgs: function values passed for parameters that carry a function-parameter contract must
+// themselves be bound to that contract (a closure/function that `implements` it, or the caller's own
+// parameter declared with the same contract).
+func (f *Frame) checkFnArgs(i *ssa.Call, g *ssa.Function, fc2 *FuncContract, key string, args []Val, site string, r string) {
+	c := f.c
+	if len(fc2.FnParams) == 0 {
+		return
+	}
+	com := i.Common()
+	var names []string
+	var vals []ssa.Value
+	if g != nil {
+		for _, p := range g.Params {
+			names = append(names, p.Name())
+		}
+		vals = com.Args
+	} else {
+		names = c.eng.contractParamNames(key, nil)
+		vals = com.Args
+	}
+	for k, n := range names {
+		want, ok := fc2.FnParams[n]
+		if !ok || k >= len(args) || k >= len(vals) {
+			continue
+		}
+		okBound := false
+		if args[k].Fn != nil {
+			if fk, ok := c.eng.keyOf[args[k].Fn.Fn]; ok {
+				if fc3 := c.eng.cs.Funcs[fk]; fc3 != nil && fc3.Implements == want {
+					okBound = true
+				}
+			}
+		} else if f.fc != nil {
+			// the caller's own parameter (loaded from its cell)
+			var pn string
+			switch v := vals[k].(type) {
+			case *ssa.UnOp:
+				if a, ok := v.X.(*ssa.Alloc); ok {
+					pn = a.Comment
+				}
+			case *ssa.Parameter:
+				pn = v.Name()
+			}
+			if f.fc.FnParams[pn] == want {
+				okBound = true
+			}
+		}
+		if !okBound {
+			f.oblige("subtype["+want+"]@"+site+":"+n, nil, r, "false")
+		}
+	}
 }
